@@ -58,6 +58,14 @@ def _const(value):
         assert False, f"Invalid constant {value!r}"
 
 
+def _check_name(name):
+    # RTLIL identifiers extend to the next whitespace character.
+    if any(c.isspace() or ord(c) < 0x20 or ord(c) == 0x7f for c in name):
+        raise NameError(f"Name {name!r} contains whitespace or control characters and cannot be "
+                        f"represented in RTLIL")
+    return name
+
+
 def _src(src_loc):
     if src_loc is None:
         return None
@@ -95,7 +103,7 @@ class Design:
 
     def module(self, name, **kwargs):
         assert name not in self.modules
-        self.modules[name] = res = Module(name, emit_src=self.emit_src, **kwargs)
+        self.modules[_check_name(name)] = res = Module(name, emit_src=self.emit_src, **kwargs)
         return res
 
     def __str__(self):
@@ -126,7 +134,7 @@ class Module:
         if name is None:
             name = self._auto_name()
         else:
-            name = f"\\{name}"
+            name = f"\\{_check_name(name)}"
         assert name not in self.contents
         return name
 
